@@ -1019,3 +1019,20 @@ def g_ent_ladder(flags="c"):
                 out.append(Case(ent_doc(decls, body), flags, True,
                                 meta={"gen": "ladder-" + use, "f": f, "upto": upto, "expect": "ok" if ok else "EntityReferenceLoop"}))
     return out
+
+
+def g_charref_values(flags="nc"):
+    """character references to the boundary values of Char, decimal and hexadecimal, with leading zeros, in text and in
+    attribute values, directly and inside an entity value; U+FFFD is an ordinary character"""
+    out = []
+    for cp in (0x20, 0x7F, 0x80, 0xD7FF, 0xE000, 0xFFFB, 0xFFFC, 0xFFFD, 0x10000, 0x10FFFF):
+        ch = chr(cp)
+        for ref in ("&#x%X;" % cp, "&#%d;" % cp, "&#x000%x;" % cp, "&#00%d;" % cp):
+            src = "a" + ref + "b"
+            out.append(Case("<r>" + src + "</r>", flags, True, meta={"gen": "charref-value-text", "cp": cp, "src": src, "expect_text": spec.decode_text(src, {})}))
+            out.append(Case("<r k='" + src + "'/>", "c", True, meta={"gen": "charref-value-attr", "cp": cp, "src": src, "expect_attr": spec.norm_attr(src, {})}))
+        ents = {"e": "a&#x%X;b" % cp}
+        dtd = "<!DOCTYPE r [<!ENTITY e '%s'>]>" % ents["e"]
+        out.append(Case(dtd + "<r>&e;</r>", flags, True, meta={"gen": "charref-value-entity-text", "cp": cp, "src": "&e;", "expect_text": spec.decode_text("&e;", ents)}))
+        out.append(Case(dtd + "<r k='&e;'/>", "c", True, meta={"gen": "charref-value-entity-attr", "cp": cp, "src": "&e;", "expect_attr": spec.norm_attr("&e;", ents)}))
+    return out
